@@ -50,15 +50,16 @@ Proof. exact no_result_set_l. Qed.
 Print Assumptions no_result_set_before_execute.
 
 (* what follows an execute does not depend on the previous result set or fetch position *)
-Theorem execute_replaces : forall s1 s2 rows names ops,
+Theorem execute_replaces : forall s1 s2 rows names aff ops,
   asz s1 = asz s2 -> dictc s1 = dictc s2 ->
-  run s1 (Execute rows names :: ops) = run s2 (Execute rows names :: ops).
+  run s1 (Execute rows names aff :: ops) = run s2 (Execute rows names aff :: ops).
 Proof. exact execute_replaces_l. Qed.
 Print Assumptions execute_replaces.
 
-Theorem rowcount_and_pandas_agree : forall ops s rows names,
-  res s = Some (rows, names) -> forallb is_fetch ops = true ->
-  snd (step (final s ops) Rowcount) = OCount (Some (length rows)) /\
+Theorem rowcount_and_pandas_agree : forall ops s0 rows names aff,
+  forallb is_fetch ops = true ->
+  let s := fst (step s0 (Execute rows names aff)) in
+  snd (step (final s ops) Rowcount) = OCount (Some (match aff with Some k => k | None => length rows end)) /\
   snd (step (final s ops) FetchPandas) = OCount (Some (length rows)).
 Proof. exact rowcount_pandas_agree_l. Qed.
 Print Assumptions rowcount_and_pandas_agree.
@@ -67,7 +68,7 @@ Print Assumptions rowcount_and_pandas_agree.
 Example width_with_repeated_names :
   let rows := [[Some 1; None]; [Some 2; Some 5]; [Some 3; Some 6]] in
   let ops := [Fetchone; SetArraysize 2; Fetchmany None; Fetchmany (Some 4%nat); Fetchall; Fetchone] in
-  run (init false) (Execute rows [lit "A"; lit "A"] :: ops) =
+  run (init false) (Execute rows [lit "A"; lit "A"] None :: ops) =
   [OUnit; OOne (Some [Some 1; None]); OUnit; ORows [[Some 2; Some 5]; [Some 3; Some 6]]; ORows []; ORows [];
    OOne None].
 Proof. exact fetch_nonvacuous. Qed.
